@@ -10,6 +10,7 @@ import (
 
 	"github.com/cloudspannerecosystem/memefish"
 	"github.com/cloudspannerecosystem/memefish/ast"
+	"github.com/cloudspannerecosystem/memefish/token"
 	"pgregory.net/rapid"
 
 	"verif/internal/astx"
@@ -32,24 +33,44 @@ func init() {
 	})
 }
 
-// c18Result renders everything observable of one call.
-func c18Result(entry, src string) string {
-	var b strings.Builder
+// c18Out keeps what one call returned (the objects themselves, so that they can be rendered again later).
+type c18Out struct {
+	entry  string
+	pieces []*memefish.RawStatement
+	toks   []token.Token
+	err    error
+	o      Outcome
+}
+
+func c18Run(entry, src string) *c18Out {
+	r := &c18Out{entry: entry}
 	switch entry {
 	case entrySplit:
-		ps, err := safeSplit(src)
-		for _, p := range ps {
+		r.pieces, r.err = safeSplit(src)
+	case entryLex:
+		r.toks, r.err = safeLex(src)
+	default:
+		r.o = entryByName[entry].Guarded(src)
+	}
+	return r
+}
+
+// render renders everything observable of the retained result.
+func (r *c18Out) render() string {
+	var b strings.Builder
+	switch r.entry {
+	case entrySplit:
+		for _, p := range r.pieces {
 			fmt.Fprintf(&b, "[%d,%d)%q;", p.Pos, p.End, p.Statement)
 		}
-		fmt.Fprintf(&b, "err=%v", err)
+		fmt.Fprintf(&b, "err=%v", r.err)
 	case entryLex:
-		toks, err := safeLex(src)
-		for _, t := range toks {
+		for _, t := range r.toks {
 			fmt.Fprintf(&b, "%s@%d:%q ", t.Kind, t.Pos, t.AsString)
 		}
-		fmt.Fprintf(&b, "err=%v", err)
+		fmt.Fprintf(&b, "err=%v", r.err)
 	default:
-		o := entryByName[entry].Guarded(src)
+		o := r.o
 		if o.Panicked {
 			return fmt.Sprintf("panic:%v", o.PanicVal)
 		}
@@ -76,6 +97,9 @@ func c18Result(entry, src string) string {
 	}
 	return b.String()
 }
+
+// c18Result renders everything observable of one call.
+func c18Result(entry, src string) string { return c18Run(entry, src).render() }
 
 // scramble overwrites every string and byte slice reachable in the tree (aliasing probe).
 func scramble(n ast.Node) {
@@ -213,8 +237,10 @@ func oracleC18(ctx *harness.Ctx, cs *harness.Case) (ds []harness.Discrepancy) {
 	}
 	coldGot := runConcurrently(cold)
 	ref := make([]string, len(calls))
+	retained := make([]*c18Out, len(calls))
 	for i, c := range calls {
-		ref[i] = c18Result(c.entry, c.src)
+		retained[i] = c18Run(c.entry, c.src)
+		ref[i] = retained[i].render()
 	}
 	check := func(phase string, i int, got string) {
 		if got != ref[i] {
@@ -226,6 +252,15 @@ func oracleC18(ctx *harness.Ctx, cs *harness.Case) (ds []harness.Discrepancy) {
 	for k := range calls {
 		i := (len(calls) - 1 - k + rot) % len(calls)
 		check("reordered", i, c18Result(calls[i].entry, calls[i].src))
+	}
+	// (iv-a) retention: the objects returned by the first run (trees, error lists with their positions and excerpts), rendered
+	// again after all the later calls, must still say what they said - a later parse must not reach into an earlier result
+	for i := range calls {
+		if got := retained[i].render(); got != ref[i] {
+			add(fmt.Sprintf("C18 retained-result-changed %s", calls[i].entry),
+				fmt.Sprintf("the result returned by %s(%s) reads differently after later calls: first %s, now %s", calls[i].entry, q(trunc(calls[i].src, 80)), trunc(ref[i], 200), trunc(got, 200)))
+			break
+		}
 	}
 	// (iv) aliasing: scramble returned trees, then parse again
 	for _, in := range inputs {
@@ -293,13 +328,14 @@ func runC18(ctx *harness.Ctx) {
 			}
 			inputs = append(inputs, src)
 		}
+		inputs = append(inputs, errorSiteVariants()...) // every special error site, at several positions, first met concurrently
 		inputs = append(inputs, ".5 + x", "a b", "(1))", "arr[OFFSET(1)]", "t.arr[ordinal(2)][i]", "'\\u00e9' || `a\\u0062`", "SELECT 1; \x00")
 		cs := &harness.Case{Leg: "cold-sweep", Input: encodeBatch(inputs), Aux: map[string]string{"goroutines": "16", "rotate": "3", "cold": "all"}}
 		ctx.Eval(int64(len(inputs) * len(c03Entries)))
 		ctx.NonTrivial(harness.Hash(cs.Input))
 		ctx.Check(t, cs, oracleC18(ctx, cs))
 	})
-	ctx.Rapid("batches", ctx.Pick(90, 2500), func(t *rapid.T) {
+	ctx.Rapid("batches", ctx.Pick(65, 2500), func(t *rapid.T) {
 		n := rapid.IntRange(8, 48).Draw(t, "n")
 		var inputs []string
 		withErr := 0
@@ -333,6 +369,44 @@ func runC18(ctx *harness.Ctx) {
 				s = rapid.SampledFrom([]string{".5 + ", ".5", ".5 * (", ".25e1 - "}).Draw(t, "dot") + s
 			}
 			inputs = append(inputs, s)
+		}
+		// special error sites, each at two different positions (an error object shared between calls shows as a changed earlier result)
+		if rapid.IntRange(0, 3).Draw(t, "error-sites") == 0 {
+			vs := errorSiteVariants()
+			for k := rapid.IntRange(1, 3).Draw(t, "n-sites"); k > 0; k-- {
+				i := rapid.IntRange(0, len(errorSiteInputs)-1).Draw(t, "site") * 4
+				inputs = append(inputs, vs[i], vs[i+1+rapid.IntRange(0, 2).Draw(t, "variant")])
+				withErr++
+			}
+			ctx.Class("batch-with-error-site-pair")
+		}
+		// twins: two different long inputs (>= 4 KiB) of exactly the same length, line breaks at different offsets, both with an
+		// error near the end (state keyed by something weaker than the content: length, path, a prefix ...)
+		if rapid.IntRange(0, 23).Draw(t, "twins") == 0 {
+			n := rapid.IntRange(1030, 1100).Draw(t, "twin-elements")
+			var a, b strings.Builder
+			a.WriteString("SELECT ")
+			b.WriteString("SELECT\n")
+			brk := rapid.IntRange(1, n-1).Draw(t, "twin-break")
+			for i := 0; i < n; i++ {
+				a.WriteString("1 + ")
+				if i == brk {
+					b.WriteString("1 +\n")
+				} else {
+					b.WriteString("1 + ")
+				}
+			}
+			tail := rapid.SampledFrom([]string{"1\n) -- tail", ")", "1 1", "'x", "1 +"}).Draw(t, "twin-tail")
+			ta, tb := a.String()+tail, b.String()+tail
+			if brk%2 == 0 {
+				ta = strings.Replace(ta, "1 + ", "1 +\n", 1) // keep the lengths equal: both have exactly one extra line break
+			} else {
+				tb = strings.Replace(tb, "1 +\n", "1 + ", 1)
+			}
+			if len(ta) == len(tb) {
+				inputs = append(inputs, ta, tb, "SELECT 1 +\n"+ta[:len(ta)/2], tb)
+				ctx.Class("batch-with-same-length-twins")
+			}
 		}
 		// duplicates on purpose: the same input in flight on several goroutines
 		if rapid.Bool().Draw(t, "dups") {
